@@ -15,6 +15,7 @@ import (
 	"time"
 
 	"github.com/miekg/dns"
+	"github.com/semihalev/sdns/internal/verifhook"
 	"github.com/semihalev/zlog/v2"
 )
 
@@ -99,6 +100,9 @@ func (b *BlockList) loadInitial() {
 // directory to merge the refreshed entries. Runs as a goroutine
 // so New can return once local state is loaded.
 func (b *BlockList) refreshRemote() {
+	if !verifhook.Background() {
+		return
+	}
 	<-time.After(time.Second)
 
 	if _, err := os.Stat(b.cfg.BlockListDir); os.IsNotExist(err) {
